@@ -259,7 +259,7 @@ def cases(rng, tier):
         as_fn = (i % 3 == 0)
         f = {"name": "n" if as_fn else n, "filename": n if as_fn else None, "ctype": "text/plain" if as_fn else None, "data": ["s", "v"]}
         out.append({"boundary": b, "shape": ["list", "rf", "dict"][i % 3], "fields": [f]})
-    nrand = 3000 if tier == "quick" else 150000
+    nrand = 8000 if tier == "quick" else 150000
     for _ in range(nrand):
         b = rng.choice(BOUNDARIES)
         shape = rng.choice(["list", "list", "rf", "dict"])
